@@ -75,7 +75,7 @@ func genRdn(yield func(any)) {
 	odd := []string{"", "CN", "CN=", "=x", "CN=a=b", "CN=a,", ",CN=a", "CN=a,,O=b", "XX=a", "cn=a", "1.2.x=a", "1..2=a", "99999999999999999999.1=a",
 		"CN=a\\,b", "CN=a\\,O=b", "CN=a\\", "CN=#", "CN=#13", "CN=#1303616263", "CN=#130361626", "CN=#0c03616263", "CN=#zz", "CN=#1302612a", "CN=#13026126",
 		"CN=#130461", "CN=#13810161", "CN=#1381800161", " CN = a ", "CN= a", "CN=a ", "\tCN=a\n", "CN=a , O=b", "1.2=#04020102", "CN=#13", "C=DE,CN=#1300",
-		"2.5.4.3=x", "3.5=x", "1.40=x", "1=x", ".=x", "CN= a", "CN=a ", "CN=a ,O=b"}
+		"2.5.4.3=x", "3.5=x", "1.40=x", "1=x", ".=x", "2.5.4.010=x", "2.5.4.08=x", "1.2.3.0100=x", "02.05.04.03=x", "2.5.4.0x10=x", "2.5.4.0b1=x", "2.5.4.1_0=x", "2.5.4.+3=x", "2.5.4.-3=x", "CN= a", "CN=a ", "CN=a ,O=b"}
 	for _, s := range odd {
 		yield(RdnIn{s})
 	}
@@ -116,6 +116,25 @@ func genRawOp(yield func(any)) {
 	}
 	for _, n := range []int{1535, 1536, 4096, 65536} {
 		yield(RawIn{b64raw(n)})
+	}
+	// wrapped base64 (as `openssl base64` or a YAML block scalar writes it): 64- and 76-column lines, LF and CRLF
+	for _, n := range []int{1, 47, 48, 49, 57, 58, 96, 100, 144, 200, 769, 1000} {
+		for _, width := range []int{64, 76, 4} {
+			for _, nl := range []string{"\n", "\r\n"} {
+				body := b64raw(n)[8:]
+				var sb strings.Builder
+				sb.WriteString("!binary:")
+				for i := 0; i < len(body); i += width {
+					e := i + width
+					if e > len(body) {
+						e = len(body)
+					}
+					sb.WriteString(body[i:e])
+					sb.WriteString(nl)
+				}
+				yield(RawIn{sb.String()})
+			}
+		}
 	}
 	// mutated encodings: drop / alter one character
 	for n := 0; n < pick(2000, 40000); n++ {
